@@ -408,6 +408,16 @@ def r03_b(ctx):
                 p = getattr(p, '_parent', None)
             ok = p is not None and any(x is calls[0] for x in ast.walk(p.test)) and not any(
                 isinstance(x, ast.UnaryOp) and isinstance(x.op, ast.Not) for x in ast.walk(p.test))
+    # nothing may cut the enumeration short: no return/raise outside the loop, no break/continue/return inside it
+    if ok:
+        early = [n for s_ in strip_doc(fd.node.body) if s_ is not loops[0] for n in ast.walk(s_)
+                 if isinstance(n, (ast.Return, ast.Raise, ast.Yield, ast.YieldFrom))]
+        early += [n for n in ast.walk(loops[0]) if isinstance(n, (ast.Break, ast.Continue, ast.Return))]
+        if early:
+            ok = False
+            rr.fail(Finding('R03.b', 'data', fd.qual, early[0] if not isinstance(early[0], (ast.Return,)) else _stmt_with(fd.node, early[0]),
+                            'find_all can stop before every descendant has been tested (%s): matching nodes are missed'
+                            % norm(_stmt_with(fd.node, early[0]))[:80], line=early[0].lineno))
     rr.ob(ok, {'find_all': 'filters descendants by __match__(name, attrs)'})
     if not ok:
         rr.fail(Finding('R03.b', 'data', fd.qual, 'find_all filter', 'find_all does not yield exactly the descendants whose '
@@ -445,6 +455,14 @@ def r03_b(ctx):
         rr.fail(Finding('R03.b', 'data', fd.qual, rets[0] if rets else '__getattr__', 'attribute access on a node is not '
                         'find() of that name', line=fd.node.lineno))
     return rr
+
+
+def _stmt_with(fnode, node):
+    """the outermost statement of the function body that contains node"""
+    for s in fnode.body:
+        if any(x is node for x in ast.walk(s)):
+            return s
+    return node
 
 
 def r03_c(ctx):
@@ -523,20 +541,63 @@ def _identity_search(n):
     return any(isinstance(x, ast.Compare) and isinstance(x.ops[0], ast.Is) for x in ast.walk(n))
 
 
+def _edit_closure(ctx):
+    """the edit methods plus the TexNode/TexExpr helper methods they reach (refactorings move the look-up into
+    helpers)"""
+    from . import callgraph
+    repo = ctx.repo
+    cg = callgraph.graph(ctx)
+    base = []
+    for cname, mname in EDIT_METHODS:
+        cls = repo.need_cls('data.' + cname)
+        base.append(_m(cls, mname))
+    out = list(base)
+    for fd in cg.reachable(base):
+        if fd.module.name == 'data' and fd.cls is not None and fd.cls.name in ('TexNode', 'TexExpr') and fd not in out \
+                and fd.name.startswith('_') and not fd.name.startswith('__') :
+            out.append(fd)
+    return out
+
+
+def r05_e(ctx):
+    """a failing remove() is not a membership test"""
+    repo = ctx.repo
+    texexpr, _ = _expr_classes(repo)
+    rr = RuleResult('R05.e', 'no edit method uses a failing remove() as the test of whether a container holds the target: '
+                    'remove falls back to an equality search, so it succeeds on an identical twin', floor=1)
+    rem = _m(texexpr, 'remove')
+    fallback = any(isinstance(n, ast.Call) and isinstance(n.func, ast.Attribute) and n.func.attr in ('index', 'remove')
+                   and _is_content_list(n.func.value) for n in ast.walk(rem.node))
+    rr.ob(True, {'remove_has_equality_fallback': fallback})
+    for fd in _edit_closure(ctx):
+        for t in ast.walk(fd.node):
+            if not isinstance(t, ast.Try):
+                continue
+            calls = [n for s in t.body for n in ast.walk(s) if isinstance(n, ast.Call) and isinstance(n.func, ast.Attribute)
+                     and n.func.attr == 'remove']
+            catches = [norm(h.type) if h.type is not None else 'all' for h in t.handlers]
+            for c in calls:
+                ok = not fallback
+                rr.ob(ok, {'function': fd.qual, 'try_remove': norm(c)[:50], 'handlers': catches})
+                if not ok:
+                    rr.fail(Finding('R05.e', 'data', fd.qual, c, '%s tries %s and treats an exception as "not in this '
+                                    'container"; remove() also succeeds on a different node with the same text, so the wrong '
+                                    'container is edited when a look-alike sits there' % (fd.qual, norm(c)[:40]), line=c.lineno))
+    return rr
+
+
 def r05_a(ctx):
     repo = ctx.repo
     data = repo.modules['data']
     texexpr, _ = _expr_classes(repo)
     rr = RuleResult('R05.a', 'a mutator that must locate the node it was given searches the content list by identity: '
-                    'expressions compare equal by text, so an equality search finds an identical twin instead', floor=4)
+                    'expressions compare equal by text, so an equality search finds an identical twin instead', floor=2)
     eq = texexpr.methods.get('__eq__')
     eq_textual = bool(eq) and any(isinstance(n, ast.Call) and norm(n.func) == 'str' for n in ast.walk(eq[-1].node))
     if not eq_textual:
         rr.ob(True, {'expression_equality': 'identity (default)'})
     n_sites = 0
-    for cname, mname in EDIT_METHODS:
-        cls = repo.need_cls('data.' + cname)
-        fd = _m(cls, mname)
+    for fd in _edit_closure(ctx):
         for n in ast.walk(fd.node):
             site = None
             if isinstance(n, ast.Call) and isinstance(n.func, ast.Attribute) and n.func.attr in ('index', 'remove', 'count') \
@@ -580,8 +641,9 @@ def r05_b(ctx):
     repo = ctx.repo
     node = repo.need_cls('data.TexNode')
     rr = RuleResult('R05.b', 'replace inserts the new material at the index returned by removing the child from the same '
-                    'container', floor=2)
+                    'container', floor=1)
     fd = _m(node, 'replace')
+    closure = {f.name for f in _edit_closure(ctx)}
     sites = [n for n in ast.walk(fd.node) if isinstance(n, ast.Call) and isinstance(n.func, ast.Attribute) and n.func.attr == 'insert']
     if not sites:
         raise AnalysisError('TexNode.replace no longer inserts')
@@ -589,13 +651,20 @@ def r05_b(ctx):
         a0 = c.args[0] if c.args else None
         ok = isinstance(a0, ast.Call) and isinstance(a0.func, ast.Attribute) and a0.func.attr == 'remove' \
             and norm(a0.func.value) == norm(c.func.value)
+        via_helper = False
         if not ok and isinstance(a0, ast.Name):
             for a in ast.walk(fd.node):
-                if isinstance(a, ast.Assign) and norm(a.targets[0]) == a0.id and isinstance(a.value, ast.Call) \
-                        and isinstance(a.value.func, ast.Attribute) and a.value.func.attr == 'remove' \
-                        and norm(a.value.func.value) == norm(c.func.value):
-                    ok = True
-        rr.ob(ok, {'insert': norm(c)[:70]})
+                if isinstance(a, ast.Assign) and isinstance(a.value, ast.Call) and isinstance(a.value.func, ast.Attribute):
+                    tgt_names = [norm(t) for t in (a.targets[0].elts if isinstance(a.targets[0], ast.Tuple) else [a.targets[0]])]
+                    if a0.id not in tgt_names:
+                        continue
+                    if a.value.func.attr == 'remove' and norm(a.value.func.value) == norm(c.func.value):
+                        ok = True
+                    elif a.value.func.attr in closure and isinstance(a.targets[0], ast.Tuple) and norm(c.func.value) in tgt_names:
+                        # (container, index) returned together by a helper of the edit methods: the helper is
+                        # covered by the look-up rules (R05.a/d/e)
+                        ok = via_helper = True
+        rr.ob(ok, {'insert': norm(c)[:70], 'index_from_helper': via_helper})
         if not ok:
             rr.fail(Finding('R05.b', 'data', fd.qual, c, 'replace does not insert at the index at which the child was '
                             'removed from the same container: the new material lands elsewhere', line=c.lineno))
@@ -731,9 +800,9 @@ def r15_a(ctx):
                     if recv == 'self._contents':
                         continue
                     # delegation to another node/expression mutator is that mutator's business
-                    if n.func.attr in ('append', 'insert', 'remove') and (recv in ('self', 'self.expr', 'self.parent', 'arg')
-                                                                           or recv.startswith('self.')):
-                        continue
+                    if n.func.attr in ('append', 'insert', 'remove') and not (
+                            recv.endswith('_contents') or recv.endswith('.all') or recv.endswith('.args')):
+                        continue        # delegation to another node/expression mutator
                     bad.append((n, 'mutates %s' % recv))
             rr.ob(not bad, {'mutator': fd.qual, 'foreign_writes': len(bad)})
             for n, what in bad:
@@ -782,6 +851,36 @@ def r15_b(ctx):
                 for n in stores:
                     rr.fail(Finding('R15.b', 'data', fd.qual, n, 'the view %s stores on the node (%s): a value computed '
                                     'before an edit can be served after it' % (fd.qual, norm(n)[:50]), line=n.lineno))
+    # helpers reached from serialisers, comparisons, views and search must not memoise either
+    from . import callgraph
+    cg = callgraph.graph(ctx)
+    roots = []
+    for cname in ('TexNode', 'TexExpr', 'TexEnv', 'TexNamedEnv', 'TexCmd', 'TexText', 'TexArgs', 'TexGroup'):
+        cls = repo.cls('data.' + cname)
+        if cls is None:
+            continue
+        for nm, fds in cls.methods.items():
+            for fd in fds:
+                if nm in ('__str__', '__repr__', '__eq__', '__contains__', '__match__', 'find', 'find_all', 'count', '__iter__',
+                          '__getitem__') or 'property' in fd.decorators:
+                    if not any(d.endswith('.setter') for d in fd.decorators):
+                        roots.append(fd)
+    seen = set()
+    for fd in cg.reachable(roots):
+        if fd.module.name != 'data' or fd in seen or fd.name == '__init__' or any(d.endswith('.setter') for d in fd.decorators):
+            continue
+        seen.add(fd)
+        if fd.name in ('append', 'insert', 'remove', 'delete', 'replace', 'replace_with', 'extend', 'pop', 'reverse', 'clear'):
+            continue        # mutators reached through class-hierarchy over-approximation
+        stores = [n for n in ast.walk(fd.node) if isinstance(n, (ast.Assign, ast.AugAssign)) and any(
+            isinstance(t, ast.Attribute) and norm(t.value) == 'self' for t in (n.targets if isinstance(n, ast.Assign) else [n.target]))]
+        if not stores:
+            continue
+        rr.ob(False, {'helper': fd.qual})
+        for n in stores:
+            rr.fail(Finding('R15.b', 'data', fd.qual, n, '%s is reached from a serialiser / view / search and stores on the '
+                            'object (%s): a memoised value survives edits that do not invalidate it' % (fd.qual, norm(n)[:50]),
+                            line=n.lineno))
     return rr
 
 
